@@ -583,6 +583,9 @@ NETWORK_PRELUDE = [
     "def setNcRef (i n : Nat) : NetM Unit := fun s => .ok ((), s.setIface i (fun f => { f with nc := some n }))",
     "/-- a nic name of the server: the id of the interface object registered under it, `none` = the empty name -/",
     "abbrev NicName := Option Nat",
+    "/-- `self.interfaces[\"%s.%s\" % (server.name, proxy_nic)]`: the object registered under the name; nothing is",
+    "registered under the empty nic name (KeyError) -/",
+    "def lookupNic (p : NicName) : NetM Nat := fun s => match p with | some pi => .ok (pi, s) | none => .error .keyError",
 ]
 
 REATTACH_ARGS = ["self", "client", "server", "client_nic", "server_nic", "proxy_nic"]
@@ -690,10 +693,13 @@ def reattach_defs(tree, consts):
     d3 = pygen.translate(proxy_fn, proxy_spec, consts)
     skeleton = [
         "/-- the skeleton of `reattach_interface` (matched structurally): the pinned head gives the interface objects `c`,",
-        "`r`; `proxy_interface` is None unless the selection test holds; `netconfig = ref_interface.netconfig`; the attach",
+        "`r`; `proxy_interface` is None unless the selection test holds, then it is looked up (genReattachProxy);",
+        "`netconfig = ref_interface.netconfig`; the attach",
         "part; `if proxy_interface is not None:` the proxy part; the pinned tail does not touch the registry -/",
+        "def genReattachProxy (r : Nat) (p : NicName) : NetM (Option Nat) :=",
+        "  if genReattachProxySelected r p then (do let pi ← lookupNic p; pure (some pi)) else pure none",
         "def genReattach (c r : Nat) (p : NicName) : NetM Unit := do",
-        "  let proxy_interface : Option Nat := if genReattachProxySelected r p then p else none",
+        "  let proxy_interface ← genReattachProxy r p",
         "  let tn ← ncOf r",
         "  genReattachAttach c tn",
         "  match proxy_interface with",
